@@ -44,7 +44,7 @@ def explore(ck):
     r = ck.rng; quick = ck.tier == 'quick'
     ck.rule = ('generated chains over the 8 coins, --verify on/off (on: block 0 is the coin\'s real genesis block), each transaction built around one feature: '
                'input/output count 252/253/254 (65535/65536 thorough), script length 0,1,75,76,252..256,65535,65536 (70000 thorough), segwit with stacks of 0,1,2,253 items '
-               'and item lengths 0,1,252,253,300,520,521,600,10000 (70000 thorough), non-canonical CompactSize widths for every count/length, u32/u64 extremes, byte-identical (coinbase and other) transactions in several blocks, XOR-obfuscated directories (key with a zero byte), stored length prefixes 0 / len-1 / len+9 / 2^32-1 (reported as stored); tx counts 1,2,3,252..254; '
+               'and item lengths 0,1,252,253,300,520,521,600,10000 (70000 thorough), non-canonical CompactSize widths for every count/length, u32/u64 extremes, byte-identical (coinbase and other) transactions in several blocks, XOR-obfuscated directories (key with a zero byte), stored length prefixes 0 / len-1 / len+9 / 2^32-1 (reported as stored), --start > 0, blocks alternating between two files with each block at the offset where its predecessor ended in the other file; tx counts 1,2,3,252..254; '
                'compared: the four CSV files byte for byte, names, totals, exit status. Non-trivial: a boundary-width count/length or a segwit transaction; distinct by feature tags.')
     feats = ['plain', 'in_count', 'out_count', 'script_len', 'segwit', 'noncanonical', 'extremes']
     ncases = 40 if quick else 240
@@ -80,7 +80,16 @@ def explore(ck):
                 sz = [None, 0, len(b.raw) + 9, 2**32 - 1, len(b.raw) - 1, 1][(h + i // 6) % 6]
                 off = c.put_block(0, b.raw, size=sz, pad=gen.rb(r, r.choice([0, 3]))); c.add_record(b, h, 0, off)
             tags.append('odd-size-prefix')
+        elif i % 9 == 8 and len(blocks) >= 2:
+            # blocks stored out of height order over two files, every block at the offset where the block of the preceding height ended in the OTHER file
+            # (each file holds padding so that offset(h+1) = offset(h) + size(h) + 8 across files)
+            pos = 0
+            for h, b in enumerate(blocks):
+                f = h % 2; cur = sum(len(d) for o, d in c.files.get(f, []))
+                off = c.put_block(f, b.raw, pad=bytes(max(0, pos - cur))) ; c.add_record(b, h, f, off); pos = off + len(b.raw)
+            tags.append('cross-file-contiguous')
         else: c.simple_layout(blocks)
+        if i % 8 == 5 and len(blocks) >= 2 and not verify: c.start = r.randrange(1, len(blocks)); tags.append('start>0')
         c.verify = verify; c.meta['tags'] = sorted(set(tags)); c.meta['cbs'] = ['csv']
         cases.append(c)
     def nontrivial(c, m):
@@ -94,6 +103,7 @@ def explore(ck):
         ck.count('coin:' + c.coin); ck.count('verify:%s' % c.verify)
     # ---- in-process: BlockchainRead::read_block through the parse-block hook vs the Coq mirror: every generated block, plus truncations and byte mutations
     #      (both sides must agree on success/failure, consumed length, header fields, txids and the re-serialised bytes that are hashed) ----
+    if not run.hooks_ok(ck): return
     reqs = []
     for i in range(30 if quick else 300):
         coin = gen.ALL_COINS[i % 8]; t, tg = boundary_tx(r, feats[i % len(feats)], False)
